@@ -217,6 +217,7 @@ PROPS = {
             J("par2", "C18_create_faults", bound="2 input files, 3 blocks (index + 2 volumes): fault at each of 2 reads / 3 writes, torn prefix of 0, 64, 100 bytes or none"),
             J("par2", "C18_verify_faults", bound="2 files, 2 blocks, intact or one file missing: fault at each read, or at the directory listing"),
             J("par2", "C18_repair_faults", bound="2 files both needing repair, 3 blocks: fault at each read, the listing, or each write (torn 0 / 2 bytes / untouched)"),
+            J("par1", "C18_par1_create_faults", bound="PAR1 Create (2 files, 2 volumes): fault at each of 2 reads / 3 writes (torn or not); PAR1 Verify: fault at each read"),
             J("par1", "C18_par1_faults", bound="PAR1 Repair: fault at each read or at the write (torn 0 / 1 byte / untouched)"),
         ],
     ),
@@ -258,13 +259,18 @@ C20_FILES = ["s.par", "s.par2", "dir/s.par2", "s.txt", "s", ""]
 
 
 def replay_c20(cex, scratch, repo, goenv):
-    """Replays a C20_main counterexample with the real binary on real files."""
+    """Replays a C20_main counterexample with the real binary on real files:
+    the argument vector is rebuilt exactly as the harness builds it, the
+    directory is put into the state that makes the real library produce the
+    modelled outcome, and the exit status is compared with the property's table."""
     import os, subprocess, shutil
     m = cex["model"]
     cmd = C20_CMDS[m.get("cmd", 0)]
     fname = C20_FILES[m.get("file", 0)]
+    flag_kind = m.get("flags", 0)
     outcome = m.get("outcome", 0)
     unusable, usable = m.get("unusable", 0), m.get("usableParity", 0)
+    ndata = m.get("dataFiles", 0) if fname != "" else 0
     par = os.path.join(scratch, "par-bin")
     r = subprocess.run(["go", "build", "-o", par, "./cmd/par"], cwd=repo, env=goenv, stdout=subprocess.PIPE, stderr=subprocess.STDOUT, text=True)
     if r.returncode != 0:
@@ -272,48 +278,65 @@ def replay_c20(cex, scratch, repo, goenv):
     d = os.path.join(scratch, "c20dir")
     shutil.rmtree(d, ignore_errors=True)
     os.makedirs(os.path.join(d, "dir"))
-    if fname not in ("s.par", "s.par2", "dir/s.par2"):
-        return dict(assume_failed=True)
-    sub = "dir/" if fname.startswith("dir/") else ""
-    for n, c in (("a", b"hello"), ("b", b"xyz")):
-        open(os.path.join(d, sub + n), "wb").write(c)
     run = lambda args: subprocess.run([par] + args, cwd=d, stdout=subprocess.PIPE, stderr=subprocess.STDOUT).returncode
     lower = {"c": "create", "create": "create", "C": "create", "v": "verify", "verify": "verify", "Verify": "verify", "r": "repair", "repair": "repair", "REPAIR": "repair"}.get(cmd)
-    if lower is None:
-        return dict(assume_failed=True)
-    if lower == "create":
-        if outcome != 0:
-            os.remove(os.path.join(d, sub + "a"))  # a missing input makes Create fail
-        code = run([cmd, "-c", "2", fname, sub + "a", sub + "b"])
-        ok = (code == 0) if outcome == 0 else (code not in (0, 3))
-        return dict(fails=[] if ok else [cex["label"]], exit_code=code)
-    if run(["c", "-c", "2", fname, sub + "a", sub + "b"]) != 0:
-        return dict(error="cannot create the set")
-    base = os.path.join(d, fname.rsplit(".", 1)[0])
-    vols = [os.path.join(os.path.dirname(base) or d, f) for f in os.listdir(os.path.dirname(base) or d) if f.startswith(os.path.basename(base) + ".") and not f.endswith((".par", ".par2")) or f.startswith(os.path.basename(base) + ".vol")]
-    state = "intact"
-    if lower == "verify":
-        if outcome == 2:
-            state = "broken"
-        elif unusable == 0:
-            state = "intact"
-        elif unusable <= usable:
-            state = "repairable"
-        else:
-            state = "unrepairable"
+    is_par = fname in ("s.par", "s.par2", "dir/s.par2")
+    usage = flag_kind in (2, 3) or cmd == "" or lower is None or fname == "" or (lower == "create" and ndata == 0)
+    argv = []
+    if flag_kind == 1:
+        argv += ["-g", "2"]
+    if flag_kind == 2:
+        argv += ["-nosuchflag"]
+    if cmd != "":
+        argv += [cmd]
+    if flag_kind == 3:
+        argv += ["-nosuchflag"]
+    if fname != "":
+        argv += [fname]
+        if ndata == 1:
+            argv += ["data1"]
+    state = "n/a"
+    want = None
+    if usage:
+        want = (3,)
+    elif not is_par:
+        want = "failure"
     else:
-        state = ["intact", "unrepairable", "broken"][outcome]
-    if state in ("repairable", "unrepairable"):
-        os.remove(os.path.join(d, sub + "a"))
-    if state == "unrepairable":
-        for v in vols:
-            os.remove(v)
-    if state == "broken":
-        open(os.path.join(d, fname), "r+b").truncate(10)
-    code = run([cmd, fname])
-    want = {"intact": (0,), "repairable": (1,) if lower == "verify" else (0,), "unrepairable": (2,), "broken": None}[state]
-    ok = (code in want) if want else (code not in (0, 1, 2, 3))
-    return dict(fails=[] if ok else [cex["label"] + " [binary exit %d, state %s]" % (code, state)], exit_code=code, state=state)
+        sub = "dir/" if fname.startswith("dir/") else ""
+        if lower == "create":
+            if outcome == 0:
+                open(os.path.join(d, "data1"), "wb").write(b"hello")
+                want = (0,)
+            else:
+                want = "nonzero-not-3"  # data1 does not exist: Create fails
+        else:
+            for n, c in (("a", b"hello"), ("b", b"xyz")):
+                open(os.path.join(d, sub + n), "wb").write(c)
+            if run(["c", "-c", "2", fname, sub + "a", sub + "b"]) != 0:
+                return dict(error="cannot create the set")
+            folder = os.path.join(d, "dir") if sub else d
+            stem = os.path.basename(fname).rsplit(".", 1)[0]
+            vols = [os.path.join(folder, f) for f in os.listdir(folder) if f.startswith(stem + ".") and f != os.path.basename(fname)]
+            if lower == "verify":
+                state = "broken" if outcome == 2 else "intact" if unusable == 0 else "repairable" if unusable <= usable else "unrepairable"
+            else:
+                state = ["intact", "unrepairable", "broken"][outcome]
+            if state in ("repairable", "unrepairable"):
+                os.remove(os.path.join(d, sub + "a"))
+            if state == "unrepairable":
+                for v in vols:
+                    os.remove(v)
+            if state == "broken":
+                open(os.path.join(d, fname), "r+b").truncate(10)
+            want = {"intact": (0,), "repairable": (1,) if lower == "verify" else (0,), "unrepairable": (2,), "broken": "failure"}[state]
+    code = run(argv)
+    if want == "failure":
+        ok = code not in (0, 1, 2, 3)
+    elif want == "nonzero-not-3":
+        ok = code not in (0, 3)
+    else:
+        ok = code in want
+    return dict(fails=[] if ok else [cex["label"] + " [binary: par %s -> exit %d, state %s, expected %s]" % (" ".join(argv), code, state, want)], exit_code=code, state=state)
 
 
 def run_special(job, scratch, repo, verif, goenv, tier, seed):
